@@ -40,6 +40,10 @@ func (i *In) parseHash(
 			return err
 		}
 
+		if nextT == nil {
+			break
+		}
+
 		if nextT.IsTargetIdentifier("}") {
 			break
 		}
@@ -69,6 +73,10 @@ func (i *In) parseArray(
 		nextT, err := p.Read()
 		if err != nil {
 			return err
+		}
+
+		if nextT == nil {
+			break
 		}
 
 		if nextT.IsVariableIdentifier() {
@@ -131,6 +139,10 @@ func (i *In) parseParentheses(p *parser.Parser, ctx context.Context) error {
 		nextT, err := p.Read()
 		if err != nil {
 			return err
+		}
+
+		if nextT == nil {
+			break
 		}
 
 		if nextT.IsVariableIdentifier() {
@@ -377,6 +389,10 @@ func (i *In) Evaluation(
 		nextT, err := p.Read()
 		if err != nil {
 			return err
+		}
+
+		if nextT == nil {
+			break
 		}
 
 		if nextT.IsNewLineIdentifier() {
